@@ -35,11 +35,15 @@ INVARIANTS = ('TypeOK', 'NoLostUpdate', 'FailedContributeNothing', 'RepeatableOr
 
 # ------------------------------------------------------------------------------------------ TLC side
 def cfg(NS=2, NO=1, MaxOps=2, KA='opt', KB='opt', Modes=('opt',), OpSet=('R', 'W', 'Q', 'F'), LockModes=('wait',),
-        Ref=True, invariants=INVARIANTS, constraint=None):
+        Ref=True, invariants=INVARIANTS, constraint=None, Modes1=None, OpSet1=None):
+    """TLC configuration. OpSet/Modes: alphabet and session modes of all sessions; OpSet1/Modes1 (optional)
+    override them for session 1 (e.g. session 1 reads/locks, the others write)."""
     def s(xs):
         return '{' + ', '.join('"%s"' % x for x in xs) + '}'
     lines = ['SPECIFICATION Spec', 'CONSTANTS', ' NS = %d' % NS, ' NO = %d' % NO, ' MaxOps = %d' % MaxOps,
-             ' KA = "%s"' % KA, ' KB = "%s"' % KB, ' Modes = %s' % s(Modes), ' OpSet = %s' % s(OpSet),
+             ' KA = "%s"' % KA, ' KB = "%s"' % KB, ' ModesN = %s' % s(Modes), ' OpSetN = %s' % s(OpSet),
+             ' Modes1 = %s' % s(Modes if Modes1 is None else Modes1),
+             ' OpSet1 = %s' % s(OpSet if OpSet1 is None else OpSet1),
              ' LockModes = %s' % s(LockModes), ' RefPhantomRemove = %s' % ('TRUE' if Ref else 'FALSE'),
              'CHECK_DEADLOCK FALSE']
     lines += ['INVARIANT %s' % i for i in invariants]
@@ -56,7 +60,7 @@ def _at(f, i):
 def _step_of(state, no):
     ev = state['ev']
     st = {'s': int(ev['s']), 'k': str(ev['k']), 'o': int(ev['o']), 'x': str(ev['x']), 'm': str(ev['m']),
-          'step': str(ev['step']), 'out': str(ev['out']), 'retv': int(ev['retv']),
+          'step': str(ev['step']), 'out': str(ev['out']), 'why': str(ev.get('why', '-')), 'retv': int(ev['retv']),
           'rets': sorted(int(i) for i in ev['rets'])}
     if st['k'] == 'W' and st['out'] == 'ok':
         st['wval'] = int(_at(_at(state['val'], st['s']), st['o'])[st['x']])
@@ -106,7 +110,8 @@ def edge_class(src, dst):
         dv = _at(_at(src['dbval'], s), o)
         cur = _at(src['row'], o)
         key += [str(_at(_at(src['status'], s), o)), tuple(sorted(_at(_at(src['rbits'], s), o))),
-                tuple(sorted(_at(_at(src['wbits'], s), o))), o in _at(src['forUpdate'], s),
+                tuple(sorted(_at(_at(src['wbits'], s), o))), tuple(sorted(_at(_at(src['notLoaded'], s), o))),
+                o in _at(src['forUpdate'], s),
                 bool(_at(src['exists'], o)), tuple(sorted(x for x in ('a', 'b') if dv[x] != cur[x]))]
     else:
         per = []
@@ -117,7 +122,7 @@ def edge_class(src, dst):
             ex = bool(_at(src['exists'], p))
             changed = tuple(sorted((x, int(cur[x])) for x in ('a', 'b') if ex and stp != 'none' and dv[x] != cur[x]))
             per.append((stp, ex, tuple(sorted(_at(_at(src['rbits'], s), p))), tuple(sorted(_at(_at(src['wbits'], s), p))),
-                        changed, p in _at(src['forUpdate'], s)))
+                        tuple(sorted(_at(_at(src['notLoaded'], s), p))), changed, p in _at(src['forUpdate'], s)))
         key.append(tuple(per))
     return tuple(key)
 
@@ -585,3 +590,117 @@ def describe(script, upto=None):
 
 def plain(x):
     return to_plain(x)
+
+
+# ------------------------------------------------------------------------------------------ checks
+KNOWN_PHANTOM_REMOVE = 'C21:Set.db_reverse_remove:item-leaves-fully-loaded-collection-silently'
+
+
+def signature(prop, script, mm):
+    """Normal form of a disagreement.  The only structural special case is the one cause the specification
+    itself names (ev.why): a delivery that must fail *only* because an item leaves a fully loaded collection."""
+    st = mm['step']
+    if mm['kind'] == 'outcome' and mm['expected'] == 'unrepeatable_error' and mm['got'] == 'ok' \
+            and st.get('why') == 'phantom_remove':
+        return KNOWN_PHANTOM_REMOVE
+    ses = script['modes'][st['s'] - 1]
+    if mm['kind'] == 'outcome':
+        return '%s:%s:%s:%s:%s:expected=%s:got=%s' % (prop, '/'.join(script['kinds']), ses, st['k'],
+                                                    'grant' if st['step'] == 'grant' else 'run',
+                                                    mm['expected'], mm['got'].split(':')[0])
+    return '%s:%s:%s:%s:%s-differs' % (prop, '/'.join(script['kinds']), ses, st['k'], mm['kind'])
+
+
+def report(ctx, script, mm):
+    cut = dict(script)
+    cut['steps'] = script['steps'][:mm['index'] + 1]
+    what = '%s ; step %d %s: expected %r, pony gave %r%s' % (
+        describe(script, mm['index']), mm['index'] + 1, mm['kind'], mm['expected'], mm['got'],
+        (' (%s)' % mm['detail']) if mm.get('detail') else '')
+    return ctx.mismatch(signature(ctx.prop, script, mm), what, cut)
+
+
+def run_plan(ctx, jobs, workers=4):
+    """jobs: list of dicts {name, how: 'graph'|'check'|'simulate', cfg: {...}, limit, num, depth, coverage}.
+    graph:    exhaustive TLC run (invariants checked) + state graph -> path cover -> replay on threads
+    check:    exhaustive TLC run only (invariants; optionally -coverage)
+    simulate: TLC -simulate behaviours (invariants checked along them) -> replay on threads"""
+    worlds = Worlds(ctx.scratch)
+    states = transitions = traces = 0
+    per_job = []
+    seen_ops = set()
+    actions = {}
+    exhaustive_all = True
+    for job in jobs:
+        kw = dict(job['cfg'])
+        kinds = (kw.get('KA', 'opt'), kw.get('KB', 'opt'))
+        text = cfg(**kw)
+        info = {'job': job['name'], 'how': job['how'], 'bounds': {k: (list(v) if isinstance(v, tuple) else v) for k, v in kw.items()}}
+        scripts = []
+        if job['how'] == 'graph':
+            nodes, edges, inits, res = tlc.dump_graph('PonyOCC', text, ctx.scratch, workers=workers, tag=job['name'])
+            scripts, ecov, etot, ccov, ctot = scripts_from_graph(
+                nodes, edges, inits, kinds, limit=job.get('limit'), variant_of=lambda i: i, seed=ctx.seed)
+            for n in nodes.values():
+                ev = n['ev']
+                seen_ops.add('%s/%s%s' % (ev['k'], ev['out'], '/grant' if ev['step'] == 'grant' else ''))
+            info.update(states=res.distinct, transitions=res.generated, edges=etot, edges_replayed=ecov,
+                        transition_classes=ctot, transition_classes_replayed=ccov)
+            if ecov < etot:
+                exhaustive_all = False
+            states += res.distinct
+            transitions += res.generated
+            del nodes, edges
+        elif job['how'] == 'check':
+            res = tlc.model_check('PonyOCC', text, ctx.scratch, workers=workers, coverage=bool(job.get('coverage')),
+                                  tag=job['name'])
+            info.update(states=res.distinct, transitions=res.generated, depth=res.depth)
+            if job.get('coverage'):
+                for a, (d, t) in res.coverage().items():
+                    old = actions.get(a, (0, 0))
+                    actions[a] = (old[0] + d, old[1] + t)
+            states += res.distinct
+            transitions += res.generated
+        elif job['how'] == 'simulate':
+            behaviours, res = tlc.simulate('PonyOCC', text, ctx.scratch, num=job['num'], depth=job['depth'],
+                                           seed=ctx.seed + 1, tag=job['name'])
+            scripts = scripts_from_behaviours(behaviours, kinds, variant_of=lambda i: i)
+            for b in behaviours:
+                for st in b[1:]:
+                    ev = st['ev']
+                    seen_ops.add('%s/%s%s' % (ev['k'], ev['out'], '/grant' if ev['step'] == 'grant' else ''))
+            info.update(behaviours=len(scripts), states_along_behaviours=sum(len(b) for b in behaviours))
+            exhaustive_all = False
+        else:
+            raise MachineryError('unknown job kind %r' % job['how'])
+        bad = 0
+        for sc in scripts:
+            mm = replay_script(worlds.get(sc), sc)
+            traces += 1
+            if mm is not None:
+                bad += 1
+                report(ctx, sc, mm)
+            elif len(sc['steps']) >= 4:
+                ctx.sample(describe(sc), limit=4)
+        info.update(replayed=len(scripts), disagreements=bad, tlc_wall_s=round(res.wall, 1))
+        per_job.append(info)
+    ctx.coverage.update(states=states, transitions=transitions, traces_validated_against_impl=traces,
+                        jobs=per_job, operations_and_outcomes_seen=sorted(seen_ops))
+    if actions:
+        ctx.coverage['tlc_action_coverage'] = {a: {'distinct': d, 'total': t} for a, (d, t) in sorted(actions.items())}
+        dead = [a for a, (d, t) in actions.items() if t == 0]
+        if dead:
+            raise MachineryError('actions never taken in the specification: %s' % dead)
+    return per_job
+
+
+def replay_entry(ctx, rep):
+    """./check CNN --replay file: re-executes the stored (cut) script."""
+    worlds = Worlds(ctx.scratch)
+    mm = replay_script(worlds.get(rep), rep)
+    if mm is None:
+        print('replay: pony agrees with the specification on this behaviour now')
+        return
+    print('replay: %s' % describe(rep, mm['index']))
+    print('replay: step %d %s: expected %r, pony gave %r' % (mm['index'] + 1, mm['kind'], mm['expected'], mm['got']))
+    report(ctx, rep, mm)
